@@ -7,6 +7,7 @@ import (
 	"go/types"
 	"os"
 	"path/filepath"
+	"regexp"
 	"sort"
 	"strings"
 
@@ -16,16 +17,16 @@ import (
 )
 
 type Engine struct {
-	repo    string
-	prog    *ssa.Program
-	pkgs    []*packages.Package
-	spkgs   []*ssa.Package
-	cs      *Contracts
-	byKey   map[string]*FuncContract
-	trusted []string // every trusted spec line (for evidence)
-	tpkgs   []*types.Package
-	fnByKey map[string]*ssa.Function
-	loadSecs float64
+	repo          string
+	prog          *ssa.Program
+	pkgs          []*packages.Package
+	spkgs         []*ssa.Package
+	cs            *Contracts
+	byKey         map[string]*FuncContract
+	trusted       []string // every trusted spec line (for evidence)
+	tpkgs         []*types.Package
+	fnByKey       map[string]*ssa.Function
+	loadSecs      float64
 	contractFiles []string
 }
 
@@ -224,7 +225,7 @@ func (eng *Engine) newFEnc(fn *ssa.Function, prop string) *FEnc {
 	e := &FEnc{eng: eng, fn: fn, d: newDecls(), vals: map[ssa.Value]*Val{}, allocOf: map[*ssa.Alloc]int{},
 		factDone: map[string]bool{}, loops: map[*ssa.BasicBlock]*loopInfo{}, domDepth: map[*ssa.BasicBlock]int{},
 		epochPreds: map[int][]epochEdge{}, heapSorts: map[string]string{}, heapDeclared: map[string]bool{},
-		safetyCount: map[string]int{}, usedGhost: map[string]bool{}, prop: prop,
+		safetyCount: map[string]int{}, usedGhost: map[string]bool{}, prop: prop, prune: true,
 		parts: map[string]*Obligation{}, atCallHits: map[*Clause]int{}, calleesUsed: map[string]*FuncContract{}, rangeGhost: map[*ssa.Range]int{}, catParts: map[string][]string{}, catCache: map[string]string{}}
 	if fn != nil {
 		e.fc = eng.contractOf(fn)
@@ -480,8 +481,11 @@ func (o *Obligation) query(withModel bool) (string, error) {
 	if n > len(e.facts) {
 		n = len(e.facts)
 	}
-	for _, f := range e.facts[:n] {
-		b.WriteString("(assert " + f + ")\n")
+	keep := e.relevantFacts(o, n)
+	for i, f := range e.facts[:n] {
+		if keep == nil || keep[i] {
+			b.WriteString("(assert " + f + ")\n")
+		}
 	}
 	if o.Cover {
 		b.WriteString("(assert " + o.Goal + ")\n")
@@ -493,4 +497,77 @@ func (o *Obligation) query(withModel bool) (string, error) {
 		b.WriteString("(get-value (" + strings.Join(o.Show, " ") + "))\n")
 	}
 	return b.String(), nil
+}
+
+var reSym = regexp.MustCompile(`[A-Za-z_][A-Za-z0-9_.$]*[!@][0-9]+|loc_[0-9]+`)
+var reDef = regexp.MustCompile(`^\(= ([A-Za-z_][A-Za-z0-9_.$]*[!@][0-9]+) `)
+var reCondDef = regexp.MustCompile(`^\(=> \S+ \(= ([A-Za-z_][A-Za-z0-9_.$]*[!@][0-9]+) `)
+
+type factInfo struct {
+	def  string   // constant defined by this fact ("" for a constraint)
+	syms []string // the function's own constants mentioned
+}
+
+// relevantFacts: cone of influence of the goal over the function's own constants. A defining equation
+// (= c term) is kept when c is needed; any other fact (a constraint) is kept when it mentions a needed
+// constant. Leaving a fact out can only make a proof fail, never succeed wrongly.
+func (e *FEnc) relevantFacts(o *Obligation, n int) []bool {
+	if !e.prune || n < 300 || o.Cover {
+		return nil
+	}
+	e.symMu.Lock()
+	if len(e.factInfo) < len(e.facts) {
+		e.factInfo = make([]factInfo, len(e.facts))
+		for i, f := range e.facts {
+			fi := factInfo{}
+			if m := reDef.FindStringSubmatch(f); m != nil {
+				fi.def = m[1]
+			} else if m := reCondDef.FindStringSubmatch(f); m != nil {
+				fi.def = m[1]
+			}
+			seen := map[string]bool{}
+			for _, m := range reSym.FindAllString(f, -1) {
+				if !seen[m] {
+					seen[m] = true
+					fi.syms = append(fi.syms, m)
+				}
+			}
+			e.factInfo[i] = fi
+		}
+	}
+	e.symMu.Unlock()
+	rel := map[string]bool{}
+	for _, m := range reSym.FindAllString(o.Goal, -1) {
+		rel[m] = true
+	}
+	keep := make([]bool, n)
+	changed := true
+	for changed {
+		changed = false
+		for i := 0; i < n; i++ {
+			if keep[i] {
+				continue
+			}
+			fi := e.factInfo[i]
+			hit := len(fi.syms) == 0
+			if fi.def != "" {
+				hit = rel[fi.def]
+			} else {
+				for _, s := range fi.syms {
+					if rel[s] {
+						hit = true
+						break
+					}
+				}
+			}
+			if hit {
+				keep[i] = true
+				changed = true
+				for _, s := range fi.syms {
+					rel[s] = true
+				}
+			}
+		}
+	}
+	return keep
 }
